@@ -29,6 +29,7 @@ type c19CmdCase struct {
 	FSFaults []simrt.FSFault   `json:"fs_faults,omitempty"`
 	DiskCap  int64             `json:"disk_cap,omitempty"`
 	Blocker  string            `json:"blocker,omitempty"` // a regular file sitting where an output directory is needed
+	Env      map[string]string `json:"env,omitempty"`
 	Strategy string            `json:"strategy"`
 	Par      int               `json:"parallelism"`
 	Chunk    int               `json:"chunk"`
@@ -54,6 +55,16 @@ func (c *c19CmdCase) spec() *simrt.Spec {
 	sp.Strategy = c.Strategy
 	sp.Parallelism = c.Par
 	sp.Chunk = c.Chunk
+	if len(c.Env) > 0 {
+		env := map[string]string{}
+		for k, v := range sp.Env {
+			env[k] = v
+		}
+		for k, v := range c.Env {
+			env[k] = v
+		}
+		sp.Env = env
+	}
 	if c.Blocker != "" {
 		files := map[string][]byte{}
 		for k, v := range sp.Files {
@@ -76,6 +87,18 @@ func c19CmdJudge(c *c19CmdCase, wr *worldRun) (*c19CmdVerdict, bool) {
 	}
 	if res.ExitHow == "deadlock" || res.ExitHow == "budget" {
 		return bad("deadlock", "the command never ends: %s", res.Verdict)
+	}
+	// a signal arrived while the files were being written: either it killed the process (the
+	// caller sees a wait status that is not success: nothing more to ask), or the program had
+	// asked for it - then it may end as it likes, but status 0 still means "everything is there"
+	signalled := false
+	for k, n := range res.Counters {
+		if strings.HasPrefix(k, "signal.SIG") && n > 0 {
+			signalled = true
+		}
+	}
+	if signalled && (res.ExitHow == "signal" || res.Exit != 0) {
+		return v, true
 	}
 	var failed []string
 	for _, a := range res.FSLog {
@@ -220,7 +243,14 @@ func c19CmdPhase(a *artefacts, tier string, seed uint64, rep *reporter) map[stri
 			return
 		}
 		fc := *c
-		switch r.Intn(5) {
+		switch r.Intn(6) {
+		case 5:
+			// the process is sent SIGINT / SIGTERM while it writes this file (after that many bytes)
+			p := paths[r.Intn(len(paths))]
+			fc.FSFaults = []simrt.FSFault{{Op: "write", Match: p, Nth: 0, Kind: []string{"SIGTERM", "SIGINT"}[r.Intn(2)], After: r.Intn(1 + len(bw.Res.Disk[p]))}}
+			if r.Chance(1, 2) {
+				fc.Env = map[string]string{"THRIFTGO_DEBUG": "1"}
+			}
 		case 0:
 			fc.FSFaults = []simrt.FSFault{{Op: "write", Match: paths[r.Intn(len(paths))], Nth: 0, Kind: []string{"EACCES", "EIO", "ENOSPC", "EMFILE"}[r.Intn(4)]}}
 		case 1:
@@ -248,7 +278,7 @@ func c19CmdPhase(a *artefacts, tier string, seed uint64, rep *reporter) map[stri
 		defer mu.Unlock()
 		stats["cmd.fault-runs"]++
 		for k, nn := range wr.Res.Counters {
-			if strings.HasPrefix(k, "fault.fs.") {
+			if strings.HasPrefix(k, "fault.fs.") || strings.HasPrefix(k, "signal.") {
 				faults[k] += nn
 			}
 		}
